@@ -99,6 +99,21 @@ def t_sclear(*a, **k):
     return x
 
 
+class SlowState(dict):
+    """a state whose serialisation takes a while (the parent waits for it after it has received the result)"""
+
+    def __reduce__(self):
+        time.sleep(self.get('pickling_takes', 0))
+        return (dict, (dict(self),))
+
+
+def t_sslowstate(*a, **k):
+    x = 7
+    CURRENT.user_state = 11
+    CURRENT.user_state = SlowState(last=12, pickling_takes=a[0] if a else 0)
+    return x
+
+
 def t_sbase(*a, **k):
     x = 7
     CURRENT.user_state = 11
